@@ -62,6 +62,7 @@ func content(n int, salt uint32) []byte {
 const B = gridfs.UploadBufferSize
 
 type env struct {
+	unclaimed bool // the last upload is finished but was not claimed
 	client lungo.IClient
 	db     lungo.IDatabase
 	trace  *util.NDJSON
@@ -134,6 +135,8 @@ func (e *env) upload(C, L int, tracked bool, how string, maxPiece int) (id inter
 	done := make(chan struct{})
 	var ferr error
 	closed, aborted := false, false
+	delMid, unclaimed := false, false
+	e.unclaimed = false
 	go func() {
 		defer close(done)
 		defer func() {
@@ -176,6 +179,10 @@ func (e *env) upload(C, L int, tracked bool, how string, maxPiece int) (id inter
 					return
 				}
 				steps = append(steps, []interface{}{"suspend", int(flushed)})
+				if e.g.P(30) {
+					// a Delete while the upload is suspended: refused, or - if it is acknowledged - the file is gone for good
+					delMid = bucket.Delete(e.ctx, id) == nil
+				}
 				stream, err = bucket.OpenUploadStreamWithID(e.ctx, id, "f"+strconv.Itoa(e.n), upOpts...)
 				if err != nil {
 					ferr = err
@@ -201,7 +208,11 @@ func (e *env) upload(C, L int, tracked bool, how string, maxPiece int) (id inter
 		ferr = stream.Close()
 		closed = ferr == nil
 		if closed && tracked {
-			ferr = bucket.ClaimUpload(e.ctx, id)
+			if e.n%2 == 0 {
+				ferr = bucket.ClaimUpload(e.ctx, id)
+			} else {
+				unclaimed = true // finished, marker "uploaded", no file record yet: it can only be claimed or deleted
+			}
 		}
 	}()
 	select {
@@ -210,6 +221,17 @@ func (e *env) upload(C, L int, tracked bool, how string, maxPiece int) (id inter
 		finding("hang", "an upload did not finish within 60 s", V{"C": C, "L": L, "tracked": tracked, "how": how})
 		out.Encode(V{"kind": "summary", "cases": e.trace.N, "findings": findings, "aborted": true})
 		os.Exit(0)
+	}
+	if delMid {
+		// the Delete in the middle of the upload was acknowledged: whatever the upload did afterwards, a cleanup leaves nothing
+		bucket.Cleanup(e.ctx, 0)
+		rows, _ := e.chunkTable(bucket, id)
+		nf, _ := bucket.GetFilesCollection(e.ctx).CountDocuments(e.ctx, bson.M{"_id": id})
+		if len(rows) > 0 || nf > 0 {
+			finding("gridfs", "a Delete during a suspended upload was acknowledged, but the file or its chunks are still there after the upload finished and the bucket was cleaned up",
+				V{"C": C, "L": L, "chunks": len(rows), "files": nf})
+		}
+		return id, nil, bucket
 	}
 	if ferr != nil {
 		finding("gridfs", "upload failed: "+ferr.Error(), V{"C": C, "L": L, "tracked": tracked, "how": how})
@@ -234,7 +256,8 @@ func (e *env) upload(C, L int, tracked bool, how string, maxPiece int) (id inter
 		effB = C
 	}
 	e.trace.Write(V{"fn": "upload", "B": effB, "C": C, "L": L, "tracked": tracked, "how": how, "steps": steps, "chunks": tab, "hasfile": hasFile, "flen": flen, "fchunk": fchunk,
-		"markers": int(markers), "aborted": aborted})
+		"markers": int(markers), "aborted": aborted, "unclaimed": unclaimed})
+	e.unclaimed = unclaimed
 	return id, data, bucket
 }
 
@@ -367,9 +390,11 @@ func main() {
 			how = "suspend"
 		}
 		id, data, bucket := e.upload(C, L, tracked, how, 3*C+2)
-		if how != "abort" {
-			e.download(bucket, id, data, C, 10)
-			if e.g.P(30) {
+		if how != "abort" && (data != nil || L == 0) {
+			if !e.unclaimed {
+				e.download(bucket, id, data, C, 10)
+			}
+			if e.g.P(30) || e.unclaimed {
 				// delete: no chunk may be left behind
 				if err := bucket.Delete(ctx, id); err != nil {
 					finding("gridfs", "Delete failed: "+err.Error(), nil)
@@ -405,8 +430,13 @@ func main() {
 				how = "suspend"
 			}
 			id, data, bucket := e.upload(c.C, c.L, tracked, how, B/2+12345)
-			e.download(bucket, id, data, c.C, 8)
+			if !e.unclaimed && data != nil {
+				e.download(bucket, id, data, c.C, 8)
+			}
 			bucket.Delete(ctx, id)
+			if tracked {
+				bucket.Cleanup(ctx, 0)
+			}
 		}
 	}
 	e.trace.Close()
